@@ -480,8 +480,14 @@ impl World for JoinWorld {
         let ts_max = *rng.pick(&[3u64, 6, 12]);
         let cond = *rng.pick(&[Cond::Always, Cond::Always, Cond::PayloadLe, Cond::PayloadEq]);
         let keyless_pct = *rng.pick(&[0u64, 0, 15, 30]);
+        // one run in fifty: 8-32 events a side instead of 0-4; one in a hundred thousand: 520-600 a side
+        let size_mode = if rng.chance(1, 100_000) { 2 } else if rng.chance(1, 50) { 1 } else { 0 };
         let gen_side = |rng: &mut Rng| -> Vec<Ev> {
-            let n = rng.usize(5);
+            let n = match size_mode {
+                2 => 520 + rng.usize(80),
+                1 => 8 + rng.usize(25),
+                _ => rng.usize(5),
+            };
             (0..n)
                 .map(|_| Ev {
                     key: if rng.chance(keyless_pct, 100) { None } else { Some(rng.below(nkeys as u64) as u8) },
@@ -555,6 +561,11 @@ impl World for JoinWorld {
         let (em, required) = run_schedule(t, &t.schedule, Some(obs))?;
         // fingerprint
         obs.fp_str(&format!("{:?}|{:?}|{:?}|{}|{}|{:?}", t.left, t.right, t.schedule, t.window_secs, t.window_frac_ms, t.cond));
+        if t.left.len() + t.right.len() > 1024 {
+            obs.count("probe.more_than_1024_events");
+        } else if t.left.len() + t.right.len() > 16 {
+            obs.count("probe.more_than_16_events");
+        }
         if t.window_secs >= 60 {
             obs.count("probe.window_of_a_minute_or_more");
         }
